@@ -7,7 +7,7 @@ from pyvc.core import *
 from pyvc.values import *
 from pyvc.interp import Obj, Builtin, BoundMethod, Closure
 from pyvc.heap import *
-from .common import make_script_registry, guard, npx
+from .common import make_script_registry, guard, npx, run_loop_body
 from .audit import mk_contest, MOD, has_contest, rec_card
 
 SCRIPTS, script = make_script_registry(__name__)
@@ -256,7 +256,7 @@ class SamplingInvariant:
             if not cond:
                 raise CutPath()          # the exit case is handled by the other branch
             before = {cid: cs[cid] for cid in CONTESTS}
-            I.exec_block(st.body, env, in_class)
+            run_loop_body(I, st, env, in_class)
             sel2 = env.vars[self.n_sel]
             take = bor(*[band(self.has[cid](inx), icmp("<", self.cnt[cid].at(inx), self.sizes[cid])) for cid in CONTESTS])
             S.holds("card sigma(inx) is appended exactly when it lists a contest whose first n_c cards are not complete",
@@ -458,7 +458,7 @@ class AppendSummary:
                 if self.kind == "for":
                     ev[st.target.id] = mkint(isub(q, oldlen))
                 h = run_body_at(q, ev)
-                I.exec_block(st.body, h["env"], in_class)
+                run_loop_body(I, st, h["env"], in_class)
                 S.holds("the body appends exactly one record", icmp("==", h["tmp"].length, iadd(q, 1)))
                 memo[k] = (zi(q), h["tmp"].at(q))
             return memo[k][1]
@@ -532,7 +532,7 @@ class ListContestSummary:
             hb = {x: votes_has(rec, x) for x in CONTESTS}
             env2 = Env({st.target.id: SInt(i0)}, env, env.module)
             env2.fn_qual = getattr(env, "fn_qual", None)
-            I.exec_block(st.body, env2, in_class)
+            run_loop_body(I, st, env2, in_class)
             rec2 = lst.at(i0)
             S.holds(f"[{cid}] the body lists the contest on record i and changes nothing else on it",
                     band(rec2 is rec, votes_has(rec, cid), *[biff(votes_has(rec, x), hb[x]) for x in CONTESTS if x != cid],
